@@ -222,6 +222,8 @@ let entries_to_string (nodes : node list) (es : entry list) : Stdlib.String.t =
 
 let trace_to_string (tr : event list) : Stdlib.String.t =
   let c p = List.length (List.filter p tr) in
-  Printf.sprintf "root=%d,method=%d,index=%d,debug=%d"
+  let names = List.concat_map (fun e -> match e with EvMethod m -> [ocaml_string m] | _ -> []) tr in
+  Printf.sprintf "root=%d,method=%d,index=%d,debug=%d,order=%s"
     (c (fun e -> e = EvRoot)) (c (fun e -> match e with EvMethod _ -> true | _ -> false))
     (c (fun e -> e = EvIndex)) (c (fun e -> match e with EvDebug _ -> true | _ -> false))
+    (if names = [] then "-" else Stdlib.String.concat "." names)
